@@ -15,6 +15,13 @@ Transforms (all purely syntactic and semantics-preserving for this package):
   structconst  struct.pack('<fmt>', ...) / struct.unpack('<fmt>', x) -> a module-level precompiled struct.Struct constant
   boolwrap     ``if x:`` / ``while x:`` on a name or attribute -> ``if bool(x):``
   renamepriv   every private function / method ``_x`` defined in the package is renamed ``_x_r`` (definition and every reference)
+  absimports   ``from . import pdu`` -> ``import pynetdicom2.pdu as pdu``; ``from .x import y`` -> ``from pynetdicom2.x import y``
+  aliasimports ``from . import pdu`` -> ``from . import pdu as pdu_mod`` with every ``pdu.`` reference renamed
+  nosix        six.indexbytes(b, i) -> b[i]; six.iteritems(d) -> d.items(); six.moves.queue/range/zip -> queue / builtins;
+               six.BytesIO / StringIO shims -> io.BytesIO; six.string_types -> (str,)
+  reorder      methods of every class sorted by name (``__init__`` first); class attributes stay before them in their order
+  annotate     every parameter annotated ``: 'object'`` style (string annotations), every function ``-> 'object'``
+  tryfinally   every function body (except generators) wrapped in ``try: ... finally: <module logger>.debug('leaving')``
 """
 import ast, copy, os, shutil, sys
 
@@ -432,6 +439,151 @@ class RenamePriv(ast.NodeTransformer):
         return node
 
 
+PKGMODS = None
+
+
+def _pkgmods():
+    global PKGMODS
+    if PKGMODS is None:
+        PKGMODS = {fn[:-3] for fn in os.listdir(SRC) if fn.endswith('.py')}
+    return PKGMODS
+
+
+class AbsImports(ast.NodeTransformer):
+    def visit_ImportFrom(self, node):
+        if node.level == 1 and node.module is None:
+            out = []
+            for a in node.names:
+                if a.name in _pkgmods():
+                    out.append(ast.Import(names=[ast.alias(name='pynetdicom2.' + a.name, asname=a.asname or a.name)]))
+                else:
+                    out.append(ast.ImportFrom(module='pynetdicom2', names=[a], level=0))
+            return out
+        if node.level == 1 and node.module:
+            return ast.ImportFrom(module='pynetdicom2.' + node.module, names=node.names, level=0)
+        return node
+
+
+class AliasImports(ast.NodeTransformer):
+    def __init__(self):
+        self.map = {}
+
+    def visit_Module(self, node):
+        for st in node.body:
+            if isinstance(st, ast.ImportFrom) and st.level == 1 and st.module is None:
+                for a in st.names:
+                    if a.name in _pkgmods():
+                        old = a.asname or a.name
+                        a.asname = old + '_mod'
+                        self.map[old] = old + '_mod'
+        # names bound elsewhere with the same spelling (parameters, locals) must not be touched
+        shadow = set()
+        for n in ast.walk(node):
+            if isinstance(n, ast.arg) and n.arg in self.map:
+                shadow.add(n.arg)
+            if isinstance(n, ast.Name) and isinstance(n.ctx, ast.Store) and n.id in self.map:
+                shadow.add(n.id)
+        for k in shadow:
+            # give up on that module alias: restore
+            for st in node.body:
+                if isinstance(st, ast.ImportFrom) and st.level == 1 and st.module is None:
+                    for a in st.names:
+                        if a.asname == self.map[k]:
+                            a.asname = k if k != a.name else None
+            del self.map[k]
+        self.generic_visit(node)
+        return node
+
+    def visit_Name(self, node):
+        if node.id in self.map and isinstance(node.ctx, ast.Load):
+            node.id = self.map[node.id]
+        return node
+
+
+class NoSix(ast.NodeTransformer):
+    def visit_Call(self, node):
+        self.generic_visit(node)
+        f = ast.unparse(node.func)
+        if f == 'six.indexbytes' and len(node.args) == 2:
+            return ast.Subscript(value=node.args[0], slice=node.args[1], ctx=ast.Load())
+        if f in ('six.iteritems', 'six.itervalues', 'six.iterkeys') and len(node.args) == 1:
+            return ast.Call(func=ast.Attribute(value=node.args[0], attr=f[8:], ctx=ast.Load()), args=[], keywords=[])
+        return node
+
+    def visit_Attribute(self, node):
+        self.generic_visit(node)
+        t = ast.unparse(node)
+        if t == 'six.string_types':
+            return ast.Tuple(elts=[ast.Name(id='str', ctx=ast.Load())], ctx=ast.Load())
+        if t in ('six.BytesIO', 'six.moves.cStringIO'):
+            return ast.Attribute(value=ast.Name(id='io', ctx=ast.Load()), attr='BytesIO', ctx=ast.Load())
+        if t == 'six.moves.socketserver':
+            return ast.Name(id='socketserver', ctx=ast.Load())
+        if t == 'six.moves.zip':
+            return ast.Name(id='zip', ctx=ast.Load())
+        if t == 'six.moves.range':
+            return ast.Name(id='range', ctx=ast.Load())
+        return node
+
+    def visit_ImportFrom(self, node):
+        if node.module == 'six.moves':
+            out = []
+            for a in node.names:
+                if a.name in ('range', 'zip', 'map', 'filter'):
+                    continue
+                out.append(ast.Import(names=[ast.alias(name=a.name, asname=a.asname)]))
+            return out or None
+        return node
+
+
+class Reorder(ast.NodeTransformer):
+    def visit_ClassDef(self, node):
+        self.generic_visit(node)
+        first = []
+        i = 0
+        # everything up to the last non-function statement keeps its place (class attributes may refer to earlier functions)
+        last_non = max([k for k, st in enumerate(node.body) if not isinstance(st, (ast.FunctionDef, ast.AsyncFunctionDef))] or [-1])
+        head, tail = node.body[:last_non + 1], node.body[last_non + 1:]
+        # property setters must follow their getter: keep (getter, setter...) groups together
+        groups = {}
+        order = []
+        for st in tail:
+            key = st.name
+            groups.setdefault(key, []).append(st)
+            if key not in order:
+                order.append(key)
+        order.sort(key=lambda n: (n != '__init__', n))
+        node.body = head + [st for k in order for st in groups[k]]
+        return node
+
+
+class Annotate(ast.NodeTransformer):
+    def visit_FunctionDef(self, node):
+        self.generic_visit(node)
+        for a in node.args.args + node.args.kwonlyargs:
+            if a.annotation is None and a.arg not in ('self', 'cls'):
+                a.annotation = ast.Constant(value='object')
+        if node.returns is None:
+            node.returns = ast.Constant(value='object')
+        return node
+
+
+class TryFinally(ast.NodeTransformer):
+    def visit_FunctionDef(self, node):
+        self.generic_visit(node)
+        if any(isinstance(n, (ast.Yield, ast.YieldFrom)) for n in ast.walk(node)):
+            return node
+        body = node.body
+        doc = []
+        if body and isinstance(body[0], ast.Expr) and isinstance(body[0].value, ast.Constant) and isinstance(body[0].value.value, str):
+            doc, body = body[:1], body[1:]
+        if not body:
+            return node
+        fin = ast.parse("_mech_logger.debug('leaving %s', %r)" % ('%s', node.name)).body
+        node.body = doc + [ast.Try(body=body, handlers=[], orelse=[], finalbody=fin)]
+        return node
+
+
 def main():
     tr, out = sys.argv[1], sys.argv[2]
     index = _package_index() if tr in ('kwargs', 'cachelocal', 'all2') else None
@@ -491,6 +643,27 @@ def main():
             tree = BoolWrap().visit(tree)
         elif tr == 'renamepriv':
             tree = RenamePriv(_private_defs()).visit(tree)
+        elif tr == 'absimports':
+            tree = AbsImports().visit(tree)
+        elif tr == 'aliasimports':
+            tree = AliasImports().visit(tree)
+        elif tr == 'nosix':
+            tree = NoSix().visit(tree)
+            if 'io.BytesIO' in ast.unparse(tree) and not any(isinstance(st, ast.Import) and any(a.name == 'io' for a in st.names) for st in tree.body):
+                tree.body.insert(1 if isinstance(tree.body[0], ast.Expr) else 0, ast.Import(names=[ast.alias(name='io', asname=None)]))
+            if 'socketserver' in ast.unparse(tree) and fn in ('asceprovider.py', 'applicationentity.py'):
+                tree.body.insert(2, ast.Import(names=[ast.alias(name='socketserver', asname=None)]))
+        elif tr == 'reorder':
+            tree = Reorder().visit(tree)
+        elif tr == 'annotate':
+            tree = Annotate().visit(tree)
+        elif tr == 'tryfinally':
+            tree = TryFinally().visit(tree)
+            i = 0
+            while i < len(tree.body) and (isinstance(tree.body[i], (ast.Import, ast.ImportFrom)) or
+                                          (isinstance(tree.body[i], ast.Expr) and isinstance(tree.body[i].value, ast.Constant))):
+                i += 1
+            tree.body[i:i] = ast.parse('import logging as _mech_logging\n_mech_logger = _mech_logging.getLogger(__name__)\n').body
         elif tr == 'all':
             for T in (Rename, SwapEq, FlipIf, ElseReturn, IfExpForm, YieldFrom, FString, TmpVar):
                 tree = T().visit(tree)
